@@ -31,17 +31,21 @@ type Step struct {
 	Points []model.Point `json:"points,omitempty"`
 	Ids    []uuid.UUID   `json:"ids,omitempty"`
 	Search *SearchSpec   `json:"search,omitempty"`
+	// Oversize: index of the update point that carries a field so large that the merged document
+	// exceeds the plan's maximum point size: the shard holding it rejects its whole part of the batch
+	Oversize int `json:"oversize,omitempty"` // 1-based, 0 = none
 }
 
 type SearchSpec struct {
-	Kind    string              `json:"kind"` // range | all | near
-	Lo, Hi  int64               `json:"lo,hi"`
-	Vector  []float32           `json:"vector,omitempty"`
-	VLimit  int                 `json:"vlimit,omitempty"`
-	Weight  *float32            `json:"weight,omitempty"`
-	Sort    []models.SortOption `json:"sort,omitempty"`
-	Offset  int                 `json:"offset"`
-	Limit   int                 `json:"limit"`
+	Kind   string              `json:"kind"` // range | all | near
+	Lo     int64               `json:"lo"`
+	Hi     int64               `json:"hi"`
+	Vector []float32           `json:"vector,omitempty"`
+	VLimit int                 `json:"vlimit,omitempty"`
+	Weight *float32            `json:"weight,omitempty"`
+	Sort   []models.SortOption `json:"sort,omitempty"`
+	Offset int                 `json:"offset"`
+	Limit  int                 `json:"limit"`
 }
 
 type Case struct {
@@ -122,6 +126,9 @@ func genCase(t *rapid.T) Case {
 					d["n"] = int64(rapid.IntRange(-3, 6).Draw(t, fmt.Sprintf("unv%d.%d", i, j)))
 				}
 				st.Points = append(st.Points, model.Point{Id: id, Doc: d})
+			}
+			if len(st.Points) > 0 && rapid.IntRange(0, 3).Draw(t, fmt.Sprintf("over%d", i)) == 0 {
+				st.Oversize = 1 + rapid.IntRange(0, len(st.Points)-1).Draw(t, fmt.Sprintf("overi%d", i))
 			}
 		case k == 6:
 			st.Kind = "delete"
@@ -308,6 +315,29 @@ func execCase(c Case) (res vt.Result) {
 			}
 			m.Insert(st.Points)
 		case "update":
+			rejectedShards := map[string]bool{}
+			if st.Oversize > 0 && st.Oversize <= len(st.Points) {
+				big := st.Points[st.Oversize-1]
+				big.Doc = model.CloneDoc(big.Doc)
+				big.Doc["blob"] = strings.Repeat("x", 70000)
+				st.Points[st.Oversize-1] = big
+				if _, ok := m.Docs[big.Id]; ok {
+					for _, sh := range where[big.Id] {
+						if serverOf[sh] != downServer {
+							rejectedShards[sh] = true
+							rec.Count("shard_rejected_oversize_update", 1)
+						}
+					}
+				}
+			}
+			inRejected := func(id uuid.UUID) bool {
+				for _, sh := range where[id] {
+					if rejectedShards[sh] {
+						return true
+					}
+				}
+				return false
+			}
 			failed, err := e.nodes[st.Via].UpdatePoints(col, drive.ToPoints(st.Points))
 			if err != nil {
 				return fail("update failed: %v", err)
@@ -322,21 +352,22 @@ func execCase(c Case) (res vt.Result) {
 			var apply []model.Point
 			for _, p := range st.Points {
 				_, exists := m.Docs[p.Id]
-				processed := exists && !unreachable(p.Id)
+				processed := exists && !unreachable(p.Id) && !inRejected(p.Id)
 				msg, isFailed := failedSet[p.Id]
 				if processed == isFailed {
-					return fail("id %s: stored=%v on-unavailable-server=%v, but listed-as-failed=%v (%q)", p.Id, exists, unreachable(p.Id), isFailed, msg)
+					return fail("id %s: stored=%v on-unavailable-server=%v in-a-shard-that-rejected-its-batch=%v, but listed-as-failed=%v (%q)", p.Id, exists, unreachable(p.Id), inRejected(p.Id), isFailed, msg)
 				}
 				if isFailed {
-					if anyShardDown == (msg == "not found") {
-						return fail("id %s failed with %q although a shard server was unavailable=%v", p.Id, msg, anyShardDown)
+					incomplete := anyShardDown || len(rejectedShards) > 0
+					if incomplete == (msg == "not found") {
+						return fail("id %s failed with %q although not every shard answered=%v", p.Id, msg, incomplete)
 					}
 				}
 				if processed {
 					apply = append(apply, p)
 				}
 			}
-			if len(failedSet) != countUnprocessed(st.Points, m, unreachable) {
+			if len(failedSet) != countUnprocessed(st.Points, m, func(id uuid.UUID) bool { return unreachable(id) || inRejected(id) }) {
 				return fail("failed list %v does not match the requested ids that no shard processed", failed)
 			}
 			m.Update(apply)
